@@ -23,7 +23,20 @@ use std::time::Duration;
 
 static TOPIC: AtomicUsize = AtomicUsize::new(0);
 
-fn backoff(attempts: u32) -> BackoffStrategy { BackoffStrategy::constant().with_max_attempts(attempts).with_step(Duration::from_millis(20)) }
+/// the backoff law of the stream under test (an optional last token of the case line): `const` 20 ms, `lin` 25 ms × attempt,
+/// `exp` 15 ms × 2^(attempt-1), `cap` 20 ms × 3^(attempt-1) clamped at 70 ms
+static LAW: std::sync::Mutex<String> = std::sync::Mutex::new(String::new());
+
+fn strategy(law: &str, attempts: u32) -> BackoffStrategy {
+    match law {
+        "lin" => BackoffStrategy::linear().with_max_attempts(attempts).with_step(Duration::from_millis(25)),
+        "exp" => BackoffStrategy::exponential(2).with_max_attempts(attempts).with_step(Duration::from_millis(15)),
+        "cap" => BackoffStrategy::exponential(3).with_max_attempts(attempts).with_step(Duration::from_millis(20)).with_max_duration(Duration::from_millis(70)),
+        _ => BackoffStrategy::constant().with_max_attempts(attempts).with_step(Duration::from_millis(20)),
+    }
+}
+
+fn backoff(attempts: u32) -> BackoffStrategy { strategy(&LAW.lock().unwrap(), attempts) }
 
 fn errname(e: &SeliumError) -> String {
     match e { SeliumError::Quic(QuicError::TooManyRetries) => "TooManyRetries".into(), other => format!("err:{}", format!("{other:?}").split(|c: char| !c.is_alphanumeric()).next().unwrap_or("?")) }
@@ -249,13 +262,37 @@ async fn quiet(addr: SocketAddr, certs: &Certs, outages: usize, attempts: u32) -
 
 /// the server the client knows goes away and an impostor with certificates of another CA takes its port, so
 /// that every reconnection attempt fails at once (a dead port would cost a QUIC handshake timeout per attempt)
-struct Gone { rt: Option<tokio::runtime::Runtime>, addr: SocketAddr, other: Certs }
+/// The impostor is a bare QUIC endpoint that notes when each connection attempt arrives (the client refuses its
+/// certificate, so every attempt fails with a connection error).
+struct Gone { rt: Option<tokio::runtime::Runtime>, addr: SocketAddr, other: Certs, seen: std::sync::Arc<std::sync::Mutex<Vec<std::time::Instant>>> }
 impl Gone {
-    fn shutdown_background(mut self) {
+    fn shutdown_background(&mut self) {
         if let Some(rt) = self.rt.take() { rt.shutdown_background(); }
         std::thread::sleep(Duration::from_millis(200));
-        let bind = self.addr.to_string();
-        let _ = start_server_on(&bind, &self.other.server("ca.der"), &self.other.server("localhost.der"), &self.other.server("localhost.key.der"));
+        let cert = rustls::Certificate(std::fs::read(self.other.server("localhost.der")).expect("impostor certificate"));
+        let key = rustls::PrivateKey(std::fs::read(self.other.server("localhost.key.der")).expect("impostor key"));
+        let mut crypto = rustls::ServerConfig::builder().with_safe_defaults().with_no_client_auth().with_single_cert(vec![cert], key).expect("impostor tls");
+        crypto.alpn_protocols = vec![b"hq-29".to_vec()];
+        let cfg = quinn::ServerConfig::with_crypto(std::sync::Arc::new(crypto));
+        let mut endpoint = None;
+        for _ in 0..50 {
+            match quinn::Endpoint::server(cfg.clone(), self.addr) { Ok(e) => { endpoint = Some(e); break; } Err(_) => std::thread::sleep(Duration::from_millis(50)) }
+        }
+        let endpoint = endpoint.expect("the impostor could not take the port over");
+        let seen = self.seen.clone();
+        tokio::spawn(async move {
+            while let Some(connecting) = endpoint.accept().await {
+                seen.lock().unwrap().push(std::time::Instant::now());
+                tokio::spawn(async move { let _ = connecting.await; });
+            }
+        });
+    }
+    /// ` attempts=<n> gaps=<ms>,<ms>,…` (time from the cut to the first attempt, then between attempts)
+    fn report(&self, cut: std::time::Instant) -> String {
+        let v = self.seen.lock().unwrap().clone();
+        let mut prev = cut;
+        let gaps: Vec<String> = v.iter().map(|t| { let g = t.saturating_duration_since(prev).as_millis(); prev = *t; g.to_string() }).collect();
+        format!(" attempts={} gaps={}", v.len(), if gaps.is_empty() { "-".to_string() } else { gaps.join(",") })
     }
 }
 
@@ -264,7 +301,8 @@ async fn exhaust(certs: &Certs, kind: &str, attempts: u32) -> anyhow::Result<Str
     let rt0 = runtime();
     let addr = rt0.block_on_in_place(async { start_server(certs) })?;
     let other = Certs::generate(&scratch_dir(&format!("recB{}", TOPIC.fetch_add(1, Ordering::SeqCst))))?;
-    let srv_rt = Gone { rt: Some(rt0), addr, other };
+    let mut srv_rt = Gone { rt: Some(rt0), addr, other, seen: Default::default() };
+    let mut cut = std::time::Instant::now();
     let n = TOPIC.fetch_add(1, Ordering::SeqCst);
     let flaky = client(addr, certs, backoff(attempts)).await?;
     let topic = format!("/verif/rex{n}");
@@ -273,6 +311,7 @@ async fn exhaust(certs: &Certs, kind: &str, attempts: u32) -> anyhow::Result<Str
             let mut publ = flaky.publisher(&topic).with_encoder(StringCodec).open().await?;
             publ.send("before".into()).await?;
             srv_rt.shutdown_background();
+            cut = std::time::Instant::now();
             flaky.verif_close_connection().await;
             // the stream is driven by a task of its own and only its completion is awaited with a time limit: a timer
             // wrapped around the future itself would re-poll it when it fires and hide a lost wake-up
@@ -285,6 +324,7 @@ async fn exhaust(certs: &Certs, kind: &str, attempts: u32) -> anyhow::Result<Str
         "sub" => {
             let mut sub = flaky.subscriber(&topic).with_decoder(StringCodec).open().await?;
             srv_rt.shutdown_background();
+            cut = std::time::Instant::now();
             flaky.verif_close_connection().await;
             let h = tokio::spawn(async move { match sub.next().await { Some(Err(e)) => errname(&e), None => "ended".into(), Some(Ok(_)) => "item".into() } });
             match tokio::time::timeout(Duration::from_secs(30), h).await { Err(_) => "hang".into(), Ok(r) => r? }
@@ -293,6 +333,7 @@ async fn exhaust(certs: &Certs, kind: &str, attempts: u32) -> anyhow::Result<Str
             let mut replier = flaky.replier(&topic).with_request_decoder(StringCodec).with_reply_encoder(StringCodec)
                 .with_handler(|req: String| async move { Ok::<_, anyhow::Error>(req) }).open().await?;
             srv_rt.shutdown_background();
+            cut = std::time::Instant::now();
             flaky.verif_close_connection().await;
             let h = tokio::spawn(async move { match replier.listen().await { Err(e) => errname(&e), Ok(()) => "returned-ok".into() } });
             match tokio::time::timeout(Duration::from_secs(30), h).await { Err(_) => "hang".into(), Ok(r) => r? }
@@ -300,12 +341,15 @@ async fn exhaust(certs: &Certs, kind: &str, attempts: u32) -> anyhow::Result<Str
         _ => {
             let mut rq = flaky.requestor(&topic).with_request_encoder(StringCodec).with_reply_decoder(StringCodec).with_request_timeout(300u64)?.open().await?;
             srv_rt.shutdown_background();
+            cut = std::time::Instant::now();
             flaky.verif_close_connection().await;
             let h = tokio::spawn(async move { match rq.request("q".into()).await { Err(e) => errname(&e), Ok(_) => "answered".into() } });
             match tokio::time::timeout(Duration::from_secs(30), h).await { Err(_) => "hang".into(), Ok(r) => r? }
         }
     };
-    Ok(r)
+    tokio::time::sleep(Duration::from_millis(150)).await;
+    let rep = srv_rt.report(cut);
+    Ok(if r == "TooManyRetries" { format!("{r}{rep}") } else { r })
 }
 
 trait BlockInPlace { fn block_on_in_place<F: std::future::Future>(&self, f: F) -> F::Output; }
@@ -339,9 +383,18 @@ pub fn run(cfg: &Cfg) {
         cases.push("rec exhaust pub 0".into());
         cases.push("rec pub 3 1".into());
         cases.push("rec replier 6 2".into());
+        // other backoff laws, budgets of one attempt for every kind
+        for (i, kind) in ["pub", "sub", "replier", "requestor"].iter().enumerate() {
+            let law = ["lin", "exp", "cap", "lin"][i];
+            cases.push(format!("rec exhaust {kind} {} {law}", 2 + i));
+            cases.push(format!("rec {kind} 2 3 {}", ["exp", "cap", "lin", "exp"][i]));
+            if *kind != "pub" { cases.push(format!("rec {kind} 3 1")); }
+        }
     }
     for c in &cases {
-        let t: Vec<&str> = c.split(' ').collect();
+        let mut t: Vec<&str> = c.split(' ').collect();
+        let law = if ["const", "lin", "exp", "cap"].contains(t.last().unwrap()) { t.pop().unwrap() } else { "const" };
+        *LAW.lock().unwrap() = law.to_string();
         let res = rt.block_on(async {
             if t[1] == "exhaust" { tokio::time::timeout(Duration::from_secs(150), exhaust(&certs, t[2], t[3].parse().unwrap())).await }
             else if t[1] == "displaced" || t[1] == "takeover" { tokio::time::timeout(Duration::from_secs(60), displaced(addr, &certs, t[2].parse().unwrap(), t[1] == "takeover")).await }
@@ -352,8 +405,21 @@ pub fn run(cfg: &Cfg) {
             Err(_) => ("TIMEOUT".to_string(), Err("C12: the scenario hung".to_string())),
             Ok(Err(e)) => (format!("ERROR {}", format!("{e:?}").replace('\n', " ").chars().take(160).collect::<String>()), Err(format!("C12: {e}"))),
             Ok(Ok(line)) => {
+                // the arrival times of the attempts are for the monitor only
+                let (line, gaps) = match line.split_once(" gaps=") { Some((l, g)) => (l.to_string(), g.to_string()), None => (line, String::new()) };
                 let m = if t[1] == "exhaust" {
-                    if line == "TooManyRetries" { Ok(()) } else { Err(format!("C12: with the server gone the {} stream reported `{line}` instead of too-many-retries", t[2])) }
+                    let budget: u32 = t[3].parse().unwrap();
+                    if !line.starts_with("TooManyRetries") { Err(format!("C12: with the server gone the {} stream reported `{line}` instead of too-many-retries", t[2])) }
+                    else if line != format!("TooManyRetries attempts={budget}") { Err(format!("C12: with the server gone and a budget of {budget} attempts the {} stream gave up after {line} (each outage gets exactly the configured number of attempts)", t[2])) }
+                    else {
+                        // every attempt is preceded by the delay its schedule prescribes (C13's law, observed at the peer)
+                        let want: Vec<u128> = strategy(law, budget).into_iter().map(|a| a.duration.as_millis()).collect();
+                        let got: Vec<u128> = gaps.split(',').filter_map(|g| g.parse().ok()).collect();
+                        match want.iter().zip(got.iter()).enumerate().find(|(_, (w, g))| **g + 3 < **w) {
+                            Some((i, (w, g))) => Err(format!("C12/C13: attempt {} of the {} stream ({law} backoff) arrived {g} ms after the previous one; its schedule says {w} ms (delays {want:?}, observed {got:?})", i + 1, t[2])),
+                            None => Ok(()),
+                        }
+                    }
                 } else if t[1] == "displaced" {
                     if line == "TooManyRetries" { Ok(()) } else { Err(format!("C12/C10: a replier whose every registration is refused (another replier stays bound) with a budget of {} attempts: `{line}` instead of too-many-retries", t[2])) }
                 } else if t[1] == "takeover" {
